@@ -26,6 +26,8 @@ mod pusher;
 mod registries;
 mod reports;
 mod sealed;
+#[cfg(folo_verif)]
+pub mod verif_hook;
 
 pub(crate) use constants::*;
 pub use data_types::*;
